@@ -6,7 +6,9 @@ import uuid as uuidlib
 
 from hypothesis import strategies as st
 
-TAG_POOL = [["species", "a"], ["species", "b"], ["species", "c"], ["call", "a"], ["call", "x"], ["k", ""], ["species", "Pin\u0303on jay"], ["species", "Pi\u00f1on jay"], ["species", "A"], ["Species", "a"]]
+TAG_POOL = [["species", "a"], ["species", "b"], ["species", "c"], ["call", "a"], ["call", "x"], ["k", ""], ["species", "Pin\u0303on jay"], ["species", "Pi\u00f1on jay"], ["species", "A"], ["Species", "a"],
+            # two authorities' code lists: different terms (name, definition) that carry the same label, and the same code in both
+            ["authx|code", "RO"], ["authy|code", "RO"]]
 OOV = [["species", "zz"], ["other", "a"]]
 
 
@@ -154,6 +156,9 @@ def build(spec, order=None):
     from soundevent import data
 
     def tag(pair):
+        if "|" in pair[0]:
+            ns, label = pair[0].split("|", 1)
+            return data.Tag(term=data.Term(name=f"{ns}:{label}", label=label, definition=f"{label} as defined by {ns}"), value=pair[1])
         return data.Tag(term=data.term_from_key(pair[0]), value=pair[1])
 
     vocab = [tag(v) for v in spec["vocab"]]
